@@ -17,6 +17,10 @@ fn main() {
             checks::c12::replay_child(&args[2..]);
             return;
         }
+        "c12portfolio2" => {
+            checks::c12::portfolio2_child(&args[2..]);
+            return;
+        }
         "c12portfolio" => {
             checks::c12::portfolio_child(&args[2..]);
             return;
